@@ -544,6 +544,29 @@ func ruleR30_3(c *Check) {
 		}
 		r.Check(ok, o.SiteFn, k.key("lease state under seq.lock", w, o.Node), o.Node, joinTrail(trail))
 	}
+	// the lease transaction itself runs inside the critical section: in every Sequence method the
+	// db.Update call (read stored lease, write new one) and the stores of next/leased that depend on it
+	// are in ONE hold of seq.lock — a snapshot under the lock followed by an unlocked transaction lets
+	// Next hand out numbers from a lease that Release is giving back at that moment
+	upd := w.Func("badger.DB.Update")
+	for _, name := range []string{"badger.Sequence.Release", "badger.Sequence.updateLease", "badger.Sequence.Next"} {
+		f := w.F(name)
+		for _, s := range f.Sites(selCall(upd)) {
+			held := f.HeldAt(s)[lock] == 2
+			if !held && name == "badger.Sequence.updateLease" {
+				held = ctorOrLocked(w, lock) // runs under its callers' lock
+			}
+			r.Check(held, f, "lease transaction runs under seq.lock", s, "db.Update is called without seq.lock held: Next can run between the snapshot of next/leased and the store of the result")
+			for _, st := range f.Sites(selStore(w.Field("badger.Sequence.next"), w.Field("badger.Sequence.leased"))) {
+				if name == "badger.Sequence.updateLease" {
+					continue
+				}
+				if ok, _ := f.releasedBetween(s, st, lock); ok {
+					r.Check(false, f, k.key("result stored in the same critical section as the transaction", w, st), st, "seq.lock is released between the lease transaction and the store of its result")
+				}
+			}
+		}
+	}
 }
 
 func containsStr(s, sub string) bool {
